@@ -122,6 +122,11 @@ let () =
         let want = ["ser=1"; "s=" ^ show (List.filter (fun i -> not (to_d i)) (range 0));
                     "d=" ^ show (List.filter to_d (range 0))] in
         Mlutil.print_model want (if outs = want then "ok" else "fail:listener-not-serial-or-not-in-emit-order")
+    | [_; _; _; _] when kind = "churn" ->
+        (* Events.v Part 4 / theorem emit_reaches_every_stable_listener: every permanent listener is
+           handed every event exactly once whatever the probes do *)
+        let want = ["miss=0"; "dup=0"] in
+        Mlutil.print_model want (if outs = want then "ok" else "fail:stable-listener-missed-or-duplicated-event")
     | [groups; _] when kind = "sched2" ->
         (* bursts emitted while the listener is busy: still exactly the emitted events, in emit order *)
         let n = List.fold_left (fun a g -> a + int_of_string g) 0 (split ',' groups) in
